@@ -6,6 +6,7 @@ C17 (staged writer)."""
 from __future__ import annotations
 
 import inspect
+import types
 
 import sympy as sp
 
@@ -49,6 +50,20 @@ class Tbl(Stub):
     def __nss_len__(self):
         """number of rows: the number of events that survived the geometry stage (0 is a possible value: an empty table is a table)"""
         return S(sp.Symbol("n_rows", integer=True, nonnegative=True), "py")
+
+
+def ghost_fs(ops):
+    """the ghost file system implied by the logged operations: path -> (columns, header keys, write options)"""
+    fs = {}
+    for o in ops:
+        if o[0] == "write":
+            fs[o[1]] = (tuple(o[3]), tuple(o[4]), tuple(sorted(o[2].items())))
+        elif o[0] == "replace":
+            if o[1] in fs:
+                fs[o[2]] = fs.pop(o[1])
+        elif o[0] == "remove":
+            fs.pop(o[1], None)
+    return fs
 
 
 class ConsoleStub(Stub):
@@ -106,6 +121,44 @@ class Model:
         for cls in (C.RegionGeom, C.RegionGeomToO, C.CloudTopHeight, C.Taus, C.EAS, C.EASRadio):
             ov[cls.__init__] = noop_init
         ov[C.Console] = lambda interp, *a, **k: state.setdefault("console", ConsoleStub())
+        # file-system calls a staged writer may use around the table write (scratch file + rename): ghost operations on the same log
+        import os as _os
+        import shutil as _sh
+
+        ops_ = state["ops"]
+
+        def _known(pth):
+            return isinstance(pth, str) and (pth in ghost_fs(ops_) or pth.endswith("OUT.fits"))
+
+        def g_replace(interp, a, b, *x, **k):
+            ops_.append(("replace", _os.fspath(a), _os.fspath(b)))
+
+        def g_remove(interp, a, *x, **k):
+            ops_.append(("remove", _os.fspath(a)))
+
+        for fn_ in (_os.replace, _os.rename, _sh.move):
+            ov[fn_] = g_replace
+        for fn_ in (_os.remove, _os.unlink):
+            ov[fn_] = g_remove
+        ov[_os.path.exists] = lambda interp, pth: (pth in ghost_fs(ops_)) if isinstance(pth, str) else False
+        ov[_os.path.lexists] = ov[_os.path.exists]
+        ov[_os.path.isfile] = ov[_os.path.exists]
+        ov[_os.path.isdir] = lambda interp, pth: False
+        ov[_os.getpid] = lambda interp: 4242
+        _sizes = []
+
+        def g_getsize(interp, pth):
+            # the size of a ghost file is an arbitrary positive number (a file left at the output path by an earlier run may be larger
+            # than anything this run writes)
+            if not (isinstance(pth, str) and pth in ghost_fs(ops_)):
+                raise UserRaise_(FileNotFoundError(pth))
+            _sizes.append(pth)
+            return S(sp.Symbol("filesize_%d" % len(_sizes), positive=True), "py")
+
+        from nssvc.interp import UserRaise as UserRaise_
+
+        ov[_os.path.getsize] = g_getsize
+        ov[_os.stat] = lambda interp, pth, *a, **k: (_ for _ in ()).throw(UserRaise_(FileNotFoundError(pth))) if not (isinstance(pth, str) and pth in ghost_fs(ops_)) else types.SimpleNamespace(st_size=g_getsize(interp, pth))
         ov[results_table.init] = lambda interp, config=None: state["tbl"]
 
         def geom_call(names):
